@@ -41,7 +41,8 @@ class C05(Property):
     rule = ('random molecules over 1-4 elements (+ charge key 0, explicit zero entries, integer or half-integer amounts) and parsed '
             'formulas; balanced reactions planted by regrouping the reactants\' atoms and charge into new or existing molecules (reversed, '
             'with catalysts on both sides, part of a coefficient moved to the inactive dictionaries); reactions unbalanced in exactly one '
-            'key (each element, charge only) through a one-key defect species; substances without composition; check_balance called '
+            'key (each element, charge only) through a one-key defect species; substances without composition; substances registered under '
+            'alias keys (mapping key != Substance.name, incl. names swapped between substances); check_balance called '
             'directly (strict/throw) and through the constructor with default checks; composition_violation with None/True/explicit '
             'keys; composition_balance_vectors; mass/charge violation helpers; for accepted systems get_odesys: linear_invariants, '
             'B.f(c) at rational c on the symbolic rhs, analytic solver (preferred None / random lists incl. coupled ones) evaluated on the invariant manifold. '
@@ -181,6 +182,15 @@ class C05(Property):
                 charge_kw[k] = subs[k][0]
         return subs, rxns, planted, charge_kw
 
+    @staticmethod
+    def _alias(rng, sj):
+        """for a fraction of the systems the substances are registered under keys that differ from Substance.name
+        (reactions, variables and the model always use the KEYS of the mapping)"""
+        if rng.random() < 0.25:
+            return {k: rng.choice(['name_of_' + k, k.lower() + '*', 'S%d' % i, sj[(i + 1) % len(sj)][0]])
+                    for i, (k, _) in enumerate(sj) if rng.random() < 0.8}
+        return {}
+
     def generate(self, rng, n, tier):
         cases = []
         n_ode = max(12, n // 20)
@@ -197,7 +207,7 @@ class C05(Property):
                 sj[rng.randrange(len(sj))][1] = None                   # a substance without composition
             if rng.random() < 0.3:
                 rng.shuffle(sj)
-            base = {'subs': sj, 'rxns': rxns, 'planted': planted, 'charge_kw': charge_kw}
+            base = {'subs': sj, 'rxns': rxns, 'planted': planted, 'charge_kw': charge_kw, 'alias': self._alias(rng, sj)}
             r = rng.random()
             if dec:
                 # floats cannot be compared exactly on the vector / helper ops: decimal amounts go through the acceptance ops only
@@ -232,15 +242,15 @@ class C05(Property):
                     ck = sorted(rng.sample(ELEMENTS + [0, 99], rng.randint(0, 4)))
                     rng.shuffle(ck)
                 c = {'op': 'comp_violation', 'subs': sj, 'rxn': rng.choice(rxns), 'ckeys': ck, 'ret_keys': ck is None and m < 0.7,
-                     'planted': planted, 'charge_kw': charge_kw}
+                     'planted': planted, 'charge_kw': charge_kw, 'alias': base['alias']}
                 if rng.random() < 0.05:
                     c['subs'] = []
             elif r < 0.85:
-                c = {'op': 'balance_vectors', 'subs': sj, 'rxns': rxns, 'planted': planted, 'charge_kw': charge_kw}
+                c = {'op': 'balance_vectors', 'subs': sj, 'rxns': rxns, 'planted': planted, 'charge_kw': charge_kw, 'alias': base['alias']}
             elif rxns:
                 which = rng.choice(['mass', 'charge', 'mass_given'])
                 c = {'op': 'attr_violation', 'subs': sj, 'rxn': rng.choice(rxns), 'which': which, 'planted': planted,
-                     'charge_kw': charge_kw}
+                     'charge_kw': charge_kw, 'alias': base['alias']}
                 if which == 'mass_given':
                     c['masses'] = [[k, rat_json(Fraction(rng.randint(1, 400), 4))] for k, _ in sj]
             else:
@@ -265,6 +275,7 @@ class C05(Property):
         state = {'subs': [list(p) for p in sj], 'rxns': [dict(r) for r in rxns]}
         steps = []
         fresh = [0]
+        alias = self._alias(rng, sj)
 
         def observe():
             o = rng.random()
@@ -324,7 +335,7 @@ class C05(Property):
             for _ in range(rng.randint(1, 2)):
                 steps.append(observe())
         return {'op': 'history', 'subs': sj, 'rxns': rxns, 'planted': planted, 'steps': steps, 'seed': rng.randrange(10 ** 9),
-                'charge_kw': charge_kw}
+                'charge_kw': charge_kw, 'alias': alias}
 
     @staticmethod
     def _apply_pure(state, st):
@@ -385,7 +396,7 @@ class C05(Property):
                 try:
                     return str(rsys.check_balance(strict=m['strict'], throw=m['throw']))
                 except ValueError as e:
-                    return self._balance_line(e, rsys.rxns)
+                    return self._balance_line(e, rsys.rxns, rsys.substances)
             if op == 'comp_violation':
                 net, ck = rsys.rxns[m['i']].composition_violation(rsys.substances, True)
                 return show_rat_list(map(kg.to_frac, net)) + ';' + show_int_list(ck)
@@ -408,11 +419,13 @@ class C05(Property):
     # ---- real objects -----------------------------------------------------------------------
     def _substances(self, sj, masses=None, c=None):
         """the real Substance objects of a case. `charge_kw` (name -> charge): that substance is constructed with the `charge`
-        keyword and its composition without key 0 (possibly the empty dict); `dec`: non-integer amounts are given as floats."""
+        keyword and its composition without key 0 (possibly the empty dict); `dec`: non-integer amounts are given as floats;
+        `alias` (key -> name): the substance is registered in the mapping under a key that differs from its `name`."""
         from chempy import Substance
         md = dict((k, kg.frac(v)) for k, v in masses) if masses else {}
         ckw = (c or {}).get('charge_kw') or {}
         dec = bool((c or {}).get('dec'))
+        alias = (c or {}).get('alias') or {}      # key in the substances mapping -> Substance.name (when they differ)
         out = OrderedDict()
         for k, cj in sj:
             comp = _comp_of(cj)
@@ -421,7 +434,7 @@ class C05(Property):
             kw = {}
             if comp is not None and k in ckw and 0 in comp:
                 kw['charge'] = comp.pop(0)
-            out[k] = Substance(k, composition=comp, data=({'mass': float(md[k])} if k in md else None), **kw)
+            out[k] = Substance(alias.get(k, k), composition=comp, data=({'mass': float(md[k])} if k in md else None), **kw)
         return out
 
     def _rsys(self, c, checks=()):
@@ -518,7 +531,7 @@ class C05(Property):
                  'y0': [rat_json(v) for v in y0], 'y': [rat_json(v) for v in y]}
         return m
 
-    def _balance_line(self, e, rxns):
+    def _balance_line(self, e, rxns, substances=None):
         msg = str(e)
         mm = re.match(r'Composition violation \((-?\d+): (.*?)\) in (.*)$', msg, re.S)
         if mm:
@@ -527,7 +540,11 @@ class C05(Property):
             return 'ValueError:violation:%d:%s:%s' % (idx, mm.group(1), show_rat(Fraction(mm.group(2))))
         mm = re.match(r'No composition for (.*)$', msg)
         if mm:
-            return 'ValueError:no-composition:' + mm.group(1)
+            # the message prints the Substance (its name); the model reports the KEY it is registered under
+            # (check_balance reports the FIRST substance, in mapping order, without composition; several substances may carry the
+            # same name, and a name may equal another substance's key)
+            key = next((k for k, sv in (substances or {}).items() if sv.composition is None and str(sv) == mm.group(1)), mm.group(1))
+            return 'ValueError:no-composition:' + key
         return 'ValueError:' + msg[:80]
 
     def impl(self, c):
@@ -559,12 +576,12 @@ class C05(Property):
                         ReactionSystem(rxns, subs)
                         return 'True'
                     except ValueError as e:
-                        return self._balance_line(e, rxns)
+                        return self._balance_line(e, rxns, subs)
                 rsys = ReactionSystem(rxns, subs, checks=())
                 try:
                     return str(rsys.check_balance(strict=c['strict'], throw=c['throw']))
                 except ValueError as e:
-                    return self._balance_line(e, rxns)
+                    return self._balance_line(e, rxns, subs)
             if op == 'comp_violation':
                 rxn = kg.mk_reaction(c['rxn'], 'int')
                 subs = self._substances(c['subs'], c=c)
